@@ -1,1 +1,3 @@
 import PmtilesModel.Props.C01
+import PmtilesModel.Props.C02
+import PmtilesModel.Obligations.C02
